@@ -228,6 +228,60 @@ def sibling_relevant(toks):
     return False
 
 
+SIMILAR_NAMES = ['x', 'x1', 'x10', 'x11', 'x2', 'x0', 'x_', 'xx', 'y', 'y1', 'y10', '_', '_1']
+
+
+def many_scopes_program(k):
+    """a frame (top level / top-level block / function / method) with 9-14 blocks (siblings, some nested) and variables whose names are
+    textual extensions of one another (x, x1, x10, ...): every block declares some, prints every name visible in it and assigns one;
+    globals of the same names are read from inside callables.  All uses are dominated by their definitions (inside the defined fragment)."""
+    r = random.Random(k * 7919 + 13)
+    frame = ('fun', 'meth', 'block', 'top')[k % 4]
+    lit = [0]
+
+    def nxt():
+        lit[0] += 1
+        return I(lit[0])
+    glob = r.sample(SIMILAR_NAMES, r.randint(2, 5))
+    params = r.sample(SIMILAR_NAMES, r.randint(0, 3)) if frame in ('fun', 'meth') else []
+    budget = [r.randint(9, 14)]
+
+    def show(vis):
+        ns = sorted(vis)
+        return Pr(' '.join('%s=~' % n for n in ns) + '\\n', [V(n) for n in ns])
+
+    def body(vis, depth):
+        es = []
+        for n in r.sample(SIMILAR_NAMES, r.randint(0, 2)):
+            es.append(Let(n, nxt()))
+            vis = vis | {n}
+        es.append(show(vis))
+        while budget[0] > 0 and (depth == 0 or r.random() < 0.4):
+            budget[0] -= 1
+            es.append(Blk(body(set(vis), depth + 1)))
+            if vis and r.random() < 0.5:
+                es.append(Asg(r.choice(sorted(vis)), nxt()))
+            if r.random() < 0.3:
+                n = r.choice(SIMILAR_NAMES)
+                es.append(Let(n, nxt()))
+                vis = vis | {n}
+        es.append(show(vis))
+        return es
+    top = [Let(g, nxt()) for g in glob]
+    if frame == 'top':
+        top += body(set(glob), 0)
+    elif frame == 'block':
+        top.append(Blk(body(set(glob), 0)))
+    elif frame == 'fun':
+        top.append(Fun('f', params, Blk(body(set(glob) | set(params), 0))))
+        top.append(Pr('r=~\\n', [Call('f', [nxt() for _ in params])]))
+    else:
+        top.append(Let('o', Obj(N(), [Let('fld', nxt()), Fun('m', params, Blk(body(set(glob) | set(params), 0)))])))
+        top.append(Pr('r=~\\n', [MC(V('o'), 'm', [nxt() for _ in params])]))
+    top.append(show(set(glob)))
+    return Top(top)
+
+
 def c12(tier):
     chk = Check('C12', tier)
     maxlen = 5
@@ -235,6 +289,7 @@ def c12(tier):
                 'while-once) up to %d statements; each is placed at top level, in a top-level block, in a function body and in a method body, with and without global x, y '
                 '(thorough: all 8 placements up to length %d, one placement round-robin beyond; quick: 8 placements to length 2, 1-4 at length 3, two placements for every length-4 sequence in which a block-local let meets another mention of the same name and for every length-5 sequence with two sibling blocks sharing a name), written literals numbered; TLC runs the README semantics FMLSource on the AST (scope '
                 'stack, LeaveRestores and CallIsolated checked in every state) and the real pipeline must print the same values and stop at the same point. '
+                'Plus seeded frames with 9-14 blocks (siblings and nested) whose variables have names that are textual extensions of one another (x, x1, x10, ...), every block printing every visible name. '
                 'distinct_nontrivial = distinct programs judged inside the fragment.' % (maxlen, 4 if tier == 'thorough' else 3))
     exe = build('debug')
     wd = scratch('c12')
@@ -263,6 +318,12 @@ def c12(tier):
         for (c, p) in places:
             ast = scope_ast(toks, c, p)
             progs.append({'name': 'scope:%s/%s/%s' % (' '.join(toks), c, 'globals' if p else 'noglobals'), 'text': unparse(ast), 'ast': strip_marks(ast)})
+    # many scopes in one frame, names that are textual extensions of one another
+    nmany = tier_sizes(tier, 160, 4000)
+    for k in range(nmany):
+        ast = many_scopes_program(seed() * 100003 + k)
+        progs.append({'name': 'manyscopes:%d' % (seed() * 100003 + k), 'text': unparse(ast), 'ast': strip_marks(ast)})
+    chk.notes['many_scopes_programs'] = nmany
     chk.notes['programs'] = len(progs)
     chunk = 20000
     agg = {'done': 0, 'fail': 0, 'reject': 0}
@@ -447,7 +508,7 @@ def c13(tier):
 def dispatch_ast(d):
     _, end, call = d[0], d[1], d[2]
     chain = d[3:]
-    endv = {'null': N(), 'int': I(5), 'bool': B(True), 'arr': Arr(I(2), I(7))}[end]
+    endv = {'null': N(), 'int': I(5), 'bool': B(True), 'arr': Arr(I(2), I(7)), 'false': B(False), 'zero': I(0), 'arr0': Arr(I(0), N())}[end]
     es = [Let('e', endv)]
     prev = 'e'
     for i, defs in enumerate(chain, start=1):
